@@ -768,6 +768,33 @@ func (m *StateMachine) sendInitialActionSet(ctx context.Context) (
 		rlc.Reset(ctx, initRE.H, initRE.R)
 		rlc.HeightCommitted = hc
 
+		// The previous finalization is needed here too:
+		// finalizing the replayed block cycles it into the current validator set,
+		// app state hash and block hash of the next height.
+		if h == m.genesis.InitialHeight {
+			rlc.PrevFinNextValSet = m.genesis.ValidatorSet
+			rlc.PrevFinAppStateHash = string(m.genesis.CurrentAppStateHash)
+
+			b, err := m.genesis.Header(m.hashScheme)
+			if err != nil {
+				panic(fmt.Errorf(
+					"FATAL: failed to generate genesis block hash: %w", err,
+				))
+			}
+			rlc.PrevBlockHash = string(b.Hash)
+		} else {
+			_, rlc.PrevBlockHash, rlc.PrevFinNextValSet, rlc.PrevFinAppStateHash, err =
+				m.fStore.LoadFinalizationByHeight(ctx, h-1)
+			if err != nil {
+				m.log.Error(
+					"Failed to load finalization when initializing round lifecycle for replay",
+					"finalization_height", h-1,
+					"err", err,
+				)
+				return rlc, rer, false
+			}
+		}
+
 		// This is a replay, so we can just tell the driver to finalize it.
 		finReq := tmdriver.FinalizeBlockRequest{
 			Header: rer.CH.Header,
